@@ -1,6 +1,7 @@
 import ErbiumModel.Lemmas.DnsTree
 import ErbiumModel.Lemmas.DnsMessage
 import ErbiumModel.Lemmas.DnsTotal
+import ErbiumModel.Lemmas.DnsDecoded
 /-! # C14 — DNS messages survive decode/encode unchanged, including name compression -/
 namespace Erbium.Props.C14
 open Erbium Erbium.DnsWire
@@ -86,6 +87,26 @@ theorem C14_unreachable_offsets_stay_unreachable (off : Nat) (h : Generated.Dns.
     Generated.Dns.pointerLimit ≤ storeOff off :=
   storeOff_ge (by decide) h (by decide)
 
+/-- **C14 (whatever the decoder accepts).** Every message the decoder returns for a string of octets has the
+    shape the round-trip theorem is about (`WfPkt`: names within 255 octets with labels of 1..63, fields within
+    their wire width, record data of the variant that belongs to the type, EDNS fields consistent). -/
+theorem C14_decoded_is_wellformed (b : Bytes) (hb : Octets b) (m : Pkt) (h : parse b = .ok m) : WfPkt m :=
+  (parse_wf hb h).1
+
+/-- **C14 (decode, encode).** Whatever the decoder accepts is written again without a panic, at every limit. -/
+theorem C14_decoded_reencodes (b : Bytes) (hb : Octets b) (m : Pkt) (h : parse b = .ok m) (size : Nat) (hs : 512 ≤ size) :
+    ∃ wire, serialiseWithSize m size = some wire :=
+  let w := parse_wf hb h
+  serialise_total (by decide) m (pktenc_of_wf w.1 w.2) size hs
+
+/-- **C14 (decode, encode, decode) — the first quantifier of the property.** For every string of octets `b` the
+    decoder accepts as `m`: when `m` is written completely into at most 65535 octets, those octets decode to `m`
+    again — identical header bits, extended rcode, EDNS version/size/DO/options, question and records. -/
+theorem C14_decoded_roundtrip (b : Bytes) (hb : Octets b) (m : Pkt) (h : parse b = .ok m)
+    (size : Nat) (wire : Bytes) (hc : Complete m size wire) (hsz : wire.length < 65536) :
+    parse wire = .ok m :=
+  message_roundtrip m (parse_wf hb h).1 size wire hc hsz
+
 /-! Non-vacuity: `www.example.com` after `example.com` is written as `www` + pointer and decodes back. -/
 def ex1 : Name := [[101, 120], [99]]
 def ex2 : Name := [[119], [101, 120], [99]]
@@ -127,5 +148,11 @@ example : PktEnc exPkt := by
     · intro l hl; simp [ex2] at hl; rcases hl with rfl | rfl | rfl <;> simp [WfLabel]
     · show (1 : Nat) ≠ T_OPT ∧ (1 : Nat) ≠ T_SOA ∧ [192, 0, 2, 1].length < 65536
       decide
+
+/-- the decoded-message theorems are not vacuous: the encoding of the example message is a string of octets the
+    decoder accepts -/
+def exWire : Bytes := (serialiseWithSize exPkt 512).getD []
+example : (exWire.all (· < 256) && (match parse exWire with | .ok q => decide (q = exPkt) | .error _ => false)) = true := by
+  decide +kernel
 
 end Erbium.Props.C14
